@@ -388,6 +388,8 @@ class Lowerer:
                 inner = self.parse_type(base[:j] + '[' + n + ']')
                 return Ty('arr', to=inner, n=base[j + 1:-1].strip())
             return Ty('arr', to=self.parse_type(base), n=n)
+        if re.match(r'^(const\s+)?std::function<', s):
+            return Ty('rec', name='std_function_opaque', key='std::function<opaque>')
         if '(' in s and not s.startswith('(anonymous') and '(anonymous namespace)' not in s and '(lambda' not in s:
             raise Unsupported('function/pointer-to-function type %r' % s)
         s2 = re.sub(r'^(\s*\b(const|volatile|struct|class|enum|typename)\b\s*)+', '', s).strip()
@@ -533,6 +535,9 @@ class Lowerer:
             self.note('builtin record model tbb::blocked_range<T> -> {_begin,_end} (trusted)')
         elif re.match(r'^tbb::(detail::)?(d\d+::)?(pre_scan_tag|final_scan_tag|split)$', key):
             fields = []
+        elif key == 'std::function<opaque>':
+            fields = []
+            self.note('std::function objects are opaque (never called in lowered code)')
         elif re.match(r'^std::vector<(.*)>$', key):
             a = split_top(key[len('std::vector<'):-1])[0]
             fields = [(Ty('ptr', to=self.parse_type(a)), '_data'), (Ty('b', name='unsigned long'), '_size'),
@@ -2035,6 +2040,8 @@ class Lowerer:
         if not Index.has_body(ctor):
             raise Unsupported('constructor %s of %s has no body' % (sig, t.key))
         f = self.request_fn(ctor)
+        if getattr(self.cur, 'skeleton', False) and f.text is None and f in self.worklist:
+            self.lower_now(f)
         a = self.args_for(ctor, args)
         return '%s(%s)' % (f.cname, ', '.join(a))
     e_CXXTemporaryObjectExpr = e_CXXConstructExpr
